@@ -271,88 +271,50 @@ def r5(fx):
                  got=f'emitted but no key: {sorted(emitted - keys)}', want='emitted types are keys')
 
 
-def _guard_sufficient(test, fn, mapname):
-    """Classify the two-colour shortcut guard (DESIGN A.8).  Returns (verdict, text): 'sufficient' if the
-    multi-colour branch is taken whenever the dark types or the light types carry more than one colour."""
-    al = {}
-    for s in src.statements(fn.body):
-        if isinstance(s, ast.Assign) and len(s.targets) == 1 and isinstance(s.targets[0], ast.Name):
-            al[s.targets[0].id] = s.value
-    seen = set()
-
-    def inline(e):
-        while isinstance(e, ast.Name) and e.id in al and e.id not in seen:
-            seen.add(e.id)
-            e = al[e.id]
-        return e
-    t = inline(test)
-    disj = t.values if isinstance(t, ast.BoolOp) and isinstance(t.op, ast.Or) else [t]
-    has_dark = has_light = has_count = False
-    for d in disj:
-        d = inline(d)
-        txt = nf.norm(d)
-        b = pat.match(d, f'len({{H_c for H_k, H_c2 in {mapname}.items() if H_p}}) > 1')
-        if b is not None and nf.norm(b['c']) == nf.norm(b['c2']):
-            ptxt = nf.norm(b['p'])
-            ktxt = nf.norm(b['k'])
-            if ptxt == f'({ktxt}>>8)':   # truthiness of type >> 8
-                has_dark = True
-                continue
-            if ptxt == f'(not ({ktxt}>>8))':
-                has_light = True
-                continue
-        if pat.match(d, f'len(set({mapname}.values())) > 2') is not None or pat.match(d, 'number_of_colors > 2') is not None \
-                or pat.match(d, 'H_n > 2') is not None:
-            has_count = True
-            continue
-        return 'unknown', ast.unparse(t)
-    if has_dark and has_light:
-        return 'sufficient', ast.unparse(t)
-    if has_count:
-        return 'insufficient', ast.unparse(t)
-    return 'unknown', ast.unparse(t)
-
-
-@rule('C11', 'R8', 6, 'two-colour shortcuts (PNG, SVG) only under a guard implying one colour per polarity; renderers look modules up by type')
+@rule('C11', 'R8', 40, 'SVG and PPM: every module is painted with the colour configured for its type (two-colour shortcut included); transparent modules are left out')
 def r8(fx):
-    svg = fx.fn('writers', 'write_svg')
-    a = single([s for s in svg.body if isinstance(s, ast.Assign) and ast.unparse(s.targets[0]) == 'is_multicolor'], 'is_multicolor')
-    v, txt = _guard_sufficient(a.value, svg, 'colormap')
-    if v == 'unknown':
-        raise Unknown(f'write_svg: shortcut guard `{txt}` not understood')
-    yield ob('write_svg: plain rendering only if all dark types share one colour and all light types share one', v == 'sufficient', a,
-             got=txt, want='... or len({c for t, c in colormap.items() if t >> 8}) > 1 or len({c ... if not t >> 8}) > 1')
-    br = [s for s in svg.body if isinstance(s, ast.If) and ast.unparse(s.test) == 'is_multicolor']
-    b = single(br, '`if is_multicolor:` in write_svg')
-    okb = 'matrix_to_lines_verbose()' in ast.unparse(b.body[0]) and 'matrix_to_lines(' in ast.unparse(b.orelse)
-    yield ob('write_svg: multicolour branch uses the per-type iterator, plain branch the run extractor', okb, b,
-             got=ast.unparse(b.body[0])[:60], want='miter = matrix_to_lines_verbose()')
-    png = fx.fn('writers', 'write_png')
-    ifs = [s for s in png.body if isinstance(s, ast.If) and 'matrix_iter_verbose' in ast.unparse(s.body[0] if s.body else s)]
-    i = single(ifs, 'iterator selection in write_png')
-    v, txt = _guard_sufficient(i.test, png, 'clr_map')
-    if v == 'unknown':
-        raise Unknown(f'write_png: shortcut guard `{txt}` not understood')
-    yield ob('write_png: plain rendering only if all dark types share one colour and all light types share one', v == 'sufficient', i,
-             got=txt, want='number_of_colors > 2 or len({c for t, c in clr_map.items() if t >> 8}) > 1 or ...')
-    # lookups by type
-    mv = fx.fn('writers', 'write_svg.matrix_to_lines_verbose')
-    okl = any(pat.match(n, '(colormap[mt] for mt in row)') is not None for n in ast.walk(mv)) and \
-        any(pat.match(c, 'matrix_iter_verbose(matrix, matrix_size, scale=1, border=border)') is not None for c in src.calls_in(mv))
-    yield ob('write_svg multicolour: colour = colormap[type] of every cell of matrix_iter_verbose(border=border)', okl, mv, got=okl, want=True)
-    ppm = fx.fn('writers', 'write_ppm')
-    plain_sources = [ast.unparse(c) for c in src.calls_in(ppm) if src.call_name(c) in ('matrix_iter', 'iter', 'matrix_to_lines')]
-    yield ob('write_ppm has no plain (two-colour) row source', not plain_sources, ppm, got=plain_sources, want=[])
-    nb = single([s for s in svg.body if isinstance(s, ast.Assign) and ast.unparse(s.targets[0]) == 'need_background'], 'need_background in write_svg')
-    yield ob('write_svg: the background rectangle replaces the light colour only in plain two-colour rendering',
-             nf.same(nb.value, 'not is_multicolor and colormap[consts.TYPE_QUIET_ZONE] is not None and not draw_transparent'),
-             nb, got=ast.unparse(nb.value), want='not is_multicolor and colormap[consts.TYPE_QUIET_ZONE] is not None and not draw_transparent')
-    okp = any(pat.match(n, "b''.join(pack(b'>3B', *colormap[mt]) for mt in row)") is not None for n in ast.walk(ppm)) and \
-        any(pat.match(c, 'matrix_iter_verbose(matrix, matrix_size, scale, border)') is not None for c in src.calls_in(ppm))
-    yield ob('write_ppm: every pixel = colormap[type]', okp, ppm, got=okp, want=True)
-    okg = any(pat.match(n, '{module_type: palette.index(clr) for module_type, clr in clr_map.items()}') is not None for n in ast.walk(png)) \
-        and any(pat.match(n, '((color_index[b] for b in r) for r in miter)') is not None for n in ast.walk(png))
-    yield ob('write_png multicolour: palette index by type for every cell', okg, png, got=okg, want=True)
+    from . import p09, render
+    from ..interp import Interp
+    it = Interp(max_steps=80_000_000)
+    fn = fx.fn('writers', 'write_svg')
+    names = dict(C(fx, '_NAME2RGB', 'writers'))
+    qz = C(fx, 'TYPE_QUIET_ZONE')
+    combos = [{}, {'light': '#fff'}, {'dark': 'red', 'light': 'yellow'}, {'dark': '#fff', 'light': '#000'}, {'dark': None, 'light': 'blue'},
+              {'finder_dark': 'blue'}, {'data_light': '#eee'}, {'finder_dark': 'blue', 'data_light': None, 'light': '#fff'},
+              {'timing_dark': (10, 20, 30), 'format_light': 'yellow', 'quiet_zone': 'aliceblue', 'light': '#fff'},
+              {'dark': (255, 0, 0, 128), 'light': '#fff'}, {'separator': 'red', 'light': '#fff'}, {'dark_module': 'blue'},
+              {'alignment_dark': 'red', 'alignment_light': 'yellow', 'version_dark': 'blue', 'version_light': '#eee', 'light': '#fff'}]
+    for size, border in (((21, 21), None), ((11, 11), 1), ((45, 45), 0)):
+        for kw in combos:
+            if size[0] == 45 and not ({'alignment_dark', 'finder_dark'} & set(kw) or not kw):
+                continue
+            for scale in ((1, 2.5) if size[0] == 21 else (1,)):
+                ty = p09._typed(fx, size, kw)
+                m = render.pattern(*size)
+                calls = []
+                try:
+                    rec, rs, _ = render.run(fx, it, 'write_svg', m, size, kw=dict(kw, scale=scale, border=border), typed=ty,
+                                            extra={'matrix_to_lines': render.lines_source(m, calls)})
+                    cm = p09._colormap(fx, it, size, kw, 'write_svg')
+                    b = render.default_border(size) if border is None else border
+                    n = size[0] + 2 * b
+                    attrs, transforms, paths = render.decode_svg(rec.text(), names)
+                    grid = render.paint_svg(paths, n, n, names)
+                    want = render.picture(m, size, 1, border, value=lambda r, c, v: p09.rgba(cm[ty(r, c, v)]), outside=p09.rgba(cm[qz]))
+                    got = [[(0, 0, 0, 0) if (p is None or p[3] == 0) else p for p in r_] for r_ in grid]
+                    why = render.first_diff(got, want)
+                    if not why and calls and calls != [('matrix_to_lines', b, b + .5, 1, True)]:
+                        why = f'run extractor called with {calls}'
+                    if not why and any(c[1] != 1 or (c[2] is not None and c[2] != b) or (c[2] is None and border is not None) or not c[3] for c in rs.calls):
+                        why = f'per-type row source called with {rs.calls}'
+                except PyRaise as ex:
+                    why = f'raises {ex.name}'
+                except render.Bad as ex:
+                    why = str(ex)
+                yield ob(f'SVG {kw} size={size[0]} scale={scale} border={border}', not why, fn, got=why or 'the symbol in its colours', want='the symbol in its colours')
+    for o in p09.r8(fx):
+        if o.key.startswith('PPM'):
+            yield o
 
 
 @rule('C11', 'R9', 30, 'PNG: every module type is painted with exactly its configured colour (palette invariants, shared with C09.R9)')
